@@ -23,7 +23,7 @@ print("baseline stable_pass missing on patched tree:", len(sp-passed), sorted(sp
 PY
 for P in $PIDS; do
   echo "== ./check $P against patched tree"
-  (cd /verif && PYVC_REPO=$WT PYTHONPATH=$WT/src timeout 1200 .venv/bin/python -m pyvc.runner $P 2>&1 | grep -E "VIOLATION|UNDECIDED|CHECKER|KNOWN|^$P:" | cut -c1-300)
+  (cd /verif && PYVC_OUT=$WT/.pyvc_out PYVC_REPO=$WT PYTHONPATH=$WT/src timeout 1200 .venv/bin/python -m pyvc.runner $P 2>&1 | grep -E "VIOLATION|UNDECIDED|CHECKER|KNOWN|^$P:" | cut -c1-300)
 done
 git -C /repo worktree remove --force $WT
 rm -f /tmp/vs_*.$$ /tmp/vs_junit.$$.xml
